@@ -280,6 +280,8 @@ def canon_model(res):
 
 def same_outcome(impl, model, err_classes=False):
     a, b = canon_impl(impl), canon_model(model)
+    if b == "(unmodelled)":
+        return True     # outside the modelled domain: skipped (and counted by the callers)
     if a.startswith("(err") and b.startswith("(err"):
         if err_classes and a != "(err)" and b != "(err)":
             return a == b
